@@ -590,6 +590,52 @@ func (c *Ctx) preRegistrationCommands(f *ircFacts) map[string]bool {
 		return pre
 	}
 	info := pm.Info()
+	// on the graph: where "You have not registered" (451) is sent, the command is known to differ from each of the commands
+	// that are allowed before registration — whatever shape the test has (a chain of !=, a switch with an early exit, a
+	// predicate that was expanded here)
+	{
+		g := c.Graph(pm)
+		for _, v := range g.Nodes() {
+			is451 := false
+			for _, call := range astx.Calls(v.Node, false) {
+				ast.Inspect(call, func(m ast.Node) bool {
+					if cl, ok := m.(*ast.CompositeLit); ok {
+						if cv := litField(cl, "Command"); cv != nil {
+							if s, ok := astx.ConstString(info, cv); ok && s == "451" {
+								is451 = true
+							}
+						}
+					}
+					return true
+				})
+			}
+			if !is451 {
+				continue
+			}
+			for _, f := range g.FactsAt(v.ID) {
+				if f.Tag != nil {
+					if s, ok := astx.ConstString(info, f.Expr); ok && s != "" && !f.Val {
+						pre[s] = true
+					}
+					continue
+				}
+				if be, ok := ast.Unparen(f.Expr).(*ast.BinaryExpr); ok {
+					differs := (be.Op == token.NEQ && f.Val) || (be.Op == token.EQL && !f.Val)
+					if !differs {
+						continue
+					}
+					for _, side := range []ast.Expr{be.X, be.Y} {
+						if s, ok := astx.ConstString(info, side); ok && s != "" {
+							pre[s] = true
+						}
+					}
+				}
+			}
+		}
+		if len(pre) > 0 {
+			return pre
+		}
+	}
 	ast.Inspect(pm.Body(), func(n ast.Node) bool {
 		ifs, ok := n.(*ast.IfStmt)
 		if !ok {
